@@ -166,8 +166,8 @@ Theorem C04_shape_getitem :
 Proof. vm_compute. reflexivity. Qed.
 Theorem C04_shape_run : calls_only_list tk_seeker_run = expected_run.
 Proof. vm_compute. reflexivity. Qed.
-Theorem C04_shape_apply_to_file :
-  calls_only_list tk_apply_to_file = expected_apply_to_file.
+Theorem C04_shape_apply_to_file_try :
+  try_of (calls_only_list tk_apply_to_file) = [expected_apply_try].
 Proof. vm_compute. reflexivity. Qed.
 
 (* (b) what the events do not show *)
@@ -194,10 +194,10 @@ Proof. repeat split; reflexivity. Qed.
    pieces, are the model functions - for all inputs *)
 Theorem C04_apply_to_file_is_source : forall H A L W tsw c since pos0,
   ap_interp apply_seek_sites (lenZ c) pos0 (run H A L W tsw c since pos0)
-            (calls_only_list tk_apply_to_file)
+            (try_of (calls_only_list tk_apply_to_file))
   = apply_to_file H A L W tsw c since pos0.
 Proof.
-  intros. rewrite C04_shape_apply_to_file, C04_src_seek_sites.
+  intros. rewrite C04_shape_apply_to_file_try, C04_src_seek_sites.
   apply ap_interp_correct.
 Qed.
 
